@@ -1,4 +1,5 @@
 import GateModel.C01.Lemmas
+import GateModel.C01.Pool
 /-
 C01 — Packet frames survive compression, encryption and arbitrary stream chunking.
 
@@ -100,6 +101,18 @@ theorem empty_payload_skipped (cfg : Cfg) (D : Bytes → Bytes) (Z : Bytes → O
       rw [hv]; simp; omega
     rw [this]
 
+/-- Shared buffer pools: with any number of encoders running concurrently and sharing the process-wide pools,
+    under EVERY interleaving of their atomic steps, each encoder writes exactly its own frame body. -/
+theorem pooled_write_integrity (content : Nat → Bytes) (sched : List Nat) :
+    ∀ p ∈ (Pool.run content sched).out, p.2 = content p.1 :=
+  (Pool.inv_run content sched).out_own
+
+/-- …and this depends on giving the buffer back only AFTER the write: with release-before-write, thread 0's
+    frame is overwritten by thread 1's before it reaches thread 0's connection. -/
+theorem pooled_write_defective_fails :
+    (Pool.runDefective (fun t => if t = 0 then [1, 1] else [2, 2]) [0, 0, 0, 1, 1, 0]).out = [(0, [2, 2])] := by
+  rfl
+
 /-! ### recorded findings (the unchanged code does this; see findings/C01.json) -/
 
 /-- FINDING `empty-payload-threshold0`: with threshold 0 an empty payload takes the compressed branch
@@ -132,6 +145,14 @@ open Gate.Gen.C01 in
 theorem src_decoder_reads_are_full :
     "io.ReadFull" ∈ fullReaderReadCalls ∧ "fullReader" ∈ newDecoderLits ∧ "fullReader" ∈ setReaderLits := by
   decide
+
+open Gate.Gen.C01 in
+/-- `writeCompressed` takes its pooled buffer and writes it out inside one function, giving it back only on
+    return (`defer release()`): the order the pool theorem needs. -/
+theorem src_pool_release_after_write :
+    writeCompressedCalls.idxOf "compressPool.getBuf" < writeCompressedCalls.idxOf "compressed.WriteTo" ∧
+    "compressed.WriteTo" ∈ writeCompressedCalls ∧ "defer:release" ∈ writeCompressedCalls ∧
+    "release" ∉ writeCompressedCalls := by decide
 
 theorem src_caps : maxFrame = 2 ^ 21 - 1 ∧ capServerBound = 2 * 1024 * 1024 ∧ capClientBound = 8 * 1024 * 1024 := by
   decide
